@@ -216,6 +216,8 @@ SerdeOk(ev) ==
      /\ SafeEq([t |-> "serde", v |-> want], r.tree)
      /\ SafeEq(RDoc(want), r.tree_back) /\ DocEq(r.tree_back.v, d)
      /\ SafeEq(RDoc(want), r.bytes_back)
+     \* the same through the bytes the crate's own encoder produces for the tree
+     /\ (Has(r, "enc") => SafeEq([t |-> "serde", v |-> want], r.enc))
 
 \* to_serde_json on arbitrary JSON text: the serde value is what the text denotes; a number beyond the
 \* double range (an infinity for this crate's parser) has no serde_json representation: an error
